@@ -31,6 +31,7 @@ ANCHORS = ["uvl_reader.py:UVLReader.transform", "afm_reader.py:AFMReader.transfo
            "json_reader.py:parse_ast_constraint", "uvl_reader.py:UVLReader.process_constraints",
            "feature_model.py:Constraint.get_features"]
 NSHARDS = 16
+CONTRACTS = ('readers',)   # ambient icontract contracts active in every shard of this check
 SHAPE_ERRORS = (AttributeError, TypeError, UnboundLocalError, KeyError, IndexError)
 
 
@@ -138,6 +139,9 @@ def read_doc(acc, cls, reader, path, payload, key, allow_reject=True):
 
 
 def run_shard(desc, acc):
+    if desc.get("shard") == 0:
+        from ..contracts_run import run_pinned_tests
+        run_pinned_tests(acc, ('reader-wellformed',))
     seed, i, n = desc["seed"], desc["shard"], desc["nshards"]
     work = tempfile.mkdtemp(prefix="vf-c02-")
     try:
